@@ -165,7 +165,7 @@ async def _ensure_result_cols(
 
 
 def _binary_encode_tiny(col: ResultColumn, val: Any) -> bytes:
-    return uint_1(int(bool(val)))
+    return struct.pack("<b", int(val))
 
 
 def _binary_encode_str(col: ResultColumn, val: Any) -> bytes:
